@@ -8,10 +8,12 @@ import (
 	"context"
 	"errors"
 	"fmt"
+	"google.golang.org/grpc/peer"
 	"net/rpc"
 	"os"
 	"strings"
 	"sync"
+	"sync/atomic"
 	"time"
 
 	plugin "github.com/hashicorp/go-plugin"
@@ -220,8 +222,27 @@ type pongGRPC struct {
 	grpctest.UnimplementedPingPongServer
 }
 
-func (pongGRPC) Ping(context.Context, *grpctest.PingRequest) (*grpctest.PongResponse, error) {
+func (pongGRPC) Ping(ctx context.Context, _ *grpctest.PingRequest) (*grpctest.PongResponse, error) {
+	LastBrokeredAuth.Store(authOf(ctx))
 	return &grpctest.PongResponse{Msg: "pong"}, nil
+}
+
+// LastBrokeredAuth is the transport security ("tls", "insecure", "none") of the brokered connection this process
+// last served (as acceptor) or used (as dialler): a brokered connection must not be weaker than the main one.
+var LastBrokeredAuth atomic.Value
+
+func authOf(ctx context.Context) string {
+	if p, ok := peer.FromContext(ctx); ok {
+		return authName(p)
+	}
+	return "none"
+}
+
+func authName(p *peer.Peer) string {
+	if p == nil || p.AuthInfo == nil {
+		return "none"
+	}
+	return p.AuthInfo.AuthType()
 }
 
 type bigPong struct {
@@ -290,10 +311,12 @@ func (c *GRPCClient) RevCallback() error {
 	defer conn.Close()
 	ctx, cancel := context.WithTimeout(context.Background(), 20*time.Second)
 	defer cancel()
-	r, err := grpctest.NewPingPongClient(conn).Ping(ctx, &grpctest.PingRequest{})
+	var pr peer.Peer
+	r, err := grpctest.NewPingPongClient(conn).Ping(ctx, &grpctest.PingRequest{}, grpc.Peer(&pr))
 	if err != nil {
 		return err
 	}
+	LastBrokeredAuth.Store(authName(&pr))
 	if r.Msg != "pong" {
 		return errors.New("bad pong")
 	}
